@@ -15,6 +15,8 @@ verus! {
 pub struct BoundingBox { pub x1: R32, pub y1: R32, pub x2: R32, pub y2: R32 }
 
 //@rewrite f32 strlit
+//@item src/types.rs :: enum ElRef
+//@end
 //@item src/element.rs :: struct SvgElement
 //@end
 impl ClassList { pub uninterp spec fn view(&self) -> Set<Seq<char>>; }
@@ -57,9 +59,9 @@ impl SvgElement {
 //@item src/reuse.rs :: impl EventGen for ReuseElement :: fn generate_events
 //@ strlit "id" "style"
 //@ fragment-name carry_over
-//@ fragment-from <<<        let ref_id = instance_element.pop_attr("id");>>>
+//@ fragment-from <<<        // if referenced by an ElRef::Id (rather than Prev), will have an `id`>>>
 //@ fragment-to <<<            instance_element.add_class(&ref_id);\n        }>>>
-//@ fragment-head <<<fn carry_over(reuse_element: &SvgElement, instance_element: &mut SvgElement, context: &mut TransformerContext) {>>>
+//@ fragment-head <<<fn carry_over(reuse_element: &SvgElement, instance_element: &mut SvgElement, context: &mut TransformerContext, elref: &ElRef) {>>>
 //@ fragment-tail <<<}>>>
 //@ ensures
 //@ - map_get(final(instance_element).attrs@, "id"@) == map_get(reuse_element.attrs@, "id"@)     @@C18.carry.id
